@@ -292,6 +292,7 @@ func TestVerifC09(t *testing.T) {
 		b, _ := json.Marshal(e)
 		w.Write(b)
 		w.WriteByte('\n')
+		w.Flush()
 	}
 
 	// one-time process initialisation: the real command line path, once, on a trivial program
